@@ -190,6 +190,52 @@ impl Storage {
 }
 pub assume_specification<'a, T: Copy>[ Option::<&'a T>::copied ](o: Option<&'a T>) -> (r: Option<T>)
     ensures o is Some ==> r == Some(*o->Some_0), o is None ==> r is None;
+
+// ------------------------------------------------------------------ lemma over the contracts: tips = frontier
+/// an abstract command graph: the commands held (committed or accepted in the transaction) and their parents
+pub struct G { pub cmds: Set<CmdId>, pub parents: Map<CmdId, Set<CmdId>> }
+/// c has a child among the held commands
+pub open spec fn has_child(g: G, c: CmdId) -> bool { exists|d: CmdId| g.cmds.contains(d) && #[trigger] g.parents[d].contains(c) }
+/// the frontier: held commands without a held descendant (= without a held child)
+pub open spec fn frontier(g: G) -> Set<CmdId> { g.cmds.filter(|c: CmdId| !has_child(g, c)) }
+/// adding a new command whose parents are held
+pub open spec fn add(g: G, c: CmdId, ps: Set<CmdId>) -> G { G { cmds: g.cmds.insert(c), parents: g.parents.insert(c, ps) } }
+/// The frontier step that add_single (one parent) and add_merge (two parents) are proved to perform on the tips:
+/// frontier(g + c) = (frontier(g) - parents(c)) + {c}.  By induction over the accepted commands, starting from
+/// tips = committed head set = frontier(committed graph) (C09 for the previous commit), the tips the
+/// transaction commits are exactly the frontier of the new committed graph.
+pub proof fn lemma_frontier_step(g: G, c: CmdId, ps: Set<CmdId>)
+    requires
+        !g.cmds.contains(c),                                   // a new command (add_commands skips known ones)
+        ps.subset_of(g.cmds),                                  // its parents are held (else NoSuchParent)
+        forall|d: CmdId| g.cmds.contains(d) ==> !(#[trigger] g.parents[d]).contains(c),   // nobody held names the new command as parent
+    ensures
+        frontier(add(g, c, ps)) =~= frontier(g).difference(ps).insert(c),
+{
+    let g2 = add(g, c, ps);
+    assert forall|x: CmdId| frontier(g2).contains(x) <==> frontier(g).difference(ps).insert(c).contains(x) by {
+        if x == c {
+            // c is held and has no held child
+            if has_child(g2, c) {
+                let d = choose|d: CmdId| g2.cmds.contains(d) && #[trigger] g2.parents[d].contains(c);
+                if d == c { assert(ps.contains(c)); assert(g.cmds.contains(c)); } else { assert(g.parents[d].contains(c)); }
+            }
+        } else {
+            if g.cmds.contains(x) {
+                // x's children in g2 are its children in g, plus c if x is a parent of c
+                if has_child(g, x) {
+                    let d = choose|d: CmdId| g.cmds.contains(d) && #[trigger] g.parents[d].contains(x);
+                    assert(g2.cmds.contains(d) && g2.parents[d].contains(x));
+                }
+                if ps.contains(x) { assert(g2.cmds.contains(c) && g2.parents[c].contains(x)); }
+                if has_child(g2, x) {
+                    let d = choose|d: CmdId| g2.cmds.contains(d) && #[trigger] g2.parents[d].contains(x);
+                    if d != c { assert(g.cmds.contains(d) && g.parents[d].contains(x)); }
+                }
+            }
+        }
+    }
+}
 impl From<PolicyError> for ClientError { #[verifier::external_body] fn from(e: PolicyError) -> (r: Self) ensures r == ClientError::Policy { ClientError::Policy } }
 '''
 
